@@ -367,6 +367,45 @@ fn gen_number_auto_large(rng: &mut Rng, bits: u32) -> (Vec<u128>, String) {
     (v, "auto_large_smooth".to_string())
 }
 
+/// Inputs of 129-175 bits for the automatic strategy: above 128 bits it uses the pooled ECM driver (ecm_auto)
+/// instead of ecm128. One or two factors within ECM's reach, and a cofactor ECM cannot split: a prime power
+/// p^2 / p^3, a semiprime for the SIQS fallback, or a single large prime.
+fn gen_number_auto_mid(rng: &mut Rng) -> (Vec<u128>, String) {
+    let mut v: Vec<u128> = vec![];
+    for _ in 0..rng.range(1, 2) {
+        let b = rng_bits(rng, 28, 44);
+        v.push(gen_prime(rng, b));
+    }
+    let name = match rng.weighted(&[40, 20, 25, 15]) {
+        0 => {
+            let b = rng_bits(rng, 43, 56);
+            let p = gen_prime(rng, b);
+            v.extend([p, p]);
+            "auto_mid_q_p2"
+        }
+        1 => {
+            let b = rng_bits(rng, 42, 46);
+            let p = gen_prime(rng, b);
+            v.extend([p, p, p]);
+            "auto_mid_q_p3"
+        }
+        2 => {
+            let b = rng_bits(rng, 46, 56);
+            v.push(gen_prime(rng, b));
+            let b = rng_bits(rng, 46, 56);
+            v.push(gen_prime(rng, b));
+            "auto_mid_q_semiprime"
+        }
+        _ => {
+            let b = rng_bits(rng, 100, 120);
+            v.push(gen_prime(rng, b));
+            "auto_mid_q_prime"
+        }
+    };
+    v.sort();
+    (v, name.to_string())
+}
+
 fn rng_bits(rng: &mut Rng, lo: u32, hi: u32) -> u32 {
     rng.range(lo as u64, hi as u64) as u32
 }
@@ -446,6 +485,8 @@ pub fn gen_spec(rng: &mut Rng, prop: &str, tier: Tier) -> Spec {
     if auto_large {
         bits = rng.range(191, 250) as u32;
     }
+    // 129-175 bits: the pooled ECM driver, then a cofactor that needs the perfect-power test or SIQS
+    let auto_mid = algo == Algo::Auto && !auto_large && rng.chance(0.08);
     // contention profile of C04: oversized factor base on a mid-size input and nothing else (the
     // sieve then needs several "enough relations?" rounds and ends with fewer relations than
     // factor base primes, the documented normal end state)
@@ -467,7 +508,7 @@ pub fn gen_spec(rng: &mut Rng, prop: &str, tier: Tier) -> Spec {
     let mut tries = 0;
     let (primes, mut shape) = loop {
         tries += 1;
-        if tries % 8 == 0 && !oversized_profile && !auto_large {
+        if tries % 8 == 0 && !oversized_profile && !auto_large && !auto_mid {
             // this size cannot satisfy the constraints below: draw another one
             bits = choose_bits(rng, prop, tier, algo).max(if prop == "C02" && algo != Algo::Auto { 66 } else { 8 });
         }
@@ -475,6 +516,8 @@ pub fn gen_spec(rng: &mut Rng, prop: &str, tier: Tier) -> Spec {
             gen_number_ecm(rng, bits)
         } else if auto_large {
             gen_number_auto_large(rng, bits)
+        } else if auto_mid {
+            gen_number_auto_mid(rng)
         } else if lanczos_profile {
             let a = bits / 2;
             (vec![gen_prime(rng, a), gen_prime(rng, bits - a)], "semiprime_balanced".to_string())
